@@ -23,6 +23,9 @@ func init() {
 		return
 	}
 	register(&Prop{Spec: report.Spec{ID: "XLOCKS", Explanation: "exploration", RuleText: "exploration", MinObs: 0}, Run: exploreLocks})
+	register(&Prop{Spec: report.Spec{ID: "XERRID", Explanation: "exploration", RuleText: "exploration", MinObs: 0}, Run: func(c *report.Ctx) {
+		checkErrorIdentity(c, func(n string) bool { return !strings.HasPrefix(n, "L/testdata.") }, nil, 0)
+	}})
 }
 
 func exploreLocks(c *report.Ctx) {
